@@ -100,6 +100,8 @@ def main():
             p['path'] = pth
             kind = fam + ('' if p['scheme'] is not None and g.r.random() < 0.4 else 'ref')
             lines.append('refnorm\t%s\t%s' % (kind, hexs(Gen.compose(p)))); meta.append(('refnorm', kind, Gen.compose(p).encode(), pth.encode()))
+            if i % 2 == 0:   # twice through ONE handle
+                lines.append('pathops\t%s\t%s\tpn\tpn' % (kind, hexs(Gen.compose(p)))); meta.append(('handle', kind, Gen.compose(p).encode(), pth.encode()))
     alpha = ('', '.', '..', 'a', 'b:c')
     for ab in (False, True):
         for path in paths_upto(alpha, 5 if thorough else 4, ab):
@@ -137,6 +139,17 @@ def main():
             if ovalid != '1' or is_abs(once) != is_abs(p): pr.append('normalize() result invalid or absoluteness changed: %r' % once)
             if twice != once: pr.append('in-place normalize() is not idempotent: %r -> %r' % (once, twice))
             classes.add((op, is_abs(p), min(len(segs(p)), 9), b'..' in segs(p), b'' in segs(p)[:-1], any(b':' in s for s in segs(p)), len(p) > 512))
+        elif op == 'handle':
+            secs = io.split('\t|\t')
+            views = secs[0].split('\t')
+            f = secs[1].split('\t')
+            P0 = spec.parse(text)
+            g_ = lambda x: None if x == '~' else unhex(x)
+            if views[0] != views[1]: pr.append('normalize() twice through one handle: %r then %r' % (unhex(views[0].split('/')[0]), unhex(views[1].split('/')[0])))
+            if f[1] != '1': pr.append('result does not re-parse: %r' % unhex(f[0]))
+            if (g_(f[2]), g_(f[3]), g_(f[5]), g_(f[6])) != (P0[0], P0[1], P0[3], P0[4]): pr.append('scheme/authority/query/fragment altered: %r' % unhex(f[0]))
+            if unhex(f[4]) != unhex(views[1].split('/')[0]): pr.append('the buffer path %r is not what the handle viewed %r' % (unhex(f[4]), unhex(views[1].split('/')[0])))
+            classes.add((op, kind, P0[0] is None, P0[1] is None))
         else:
             secs = [x.split('\t') for x in io.split('\t|\t')]
             g_ = lambda x: None if x == '~' else unhex(x)
